@@ -2,7 +2,7 @@ CONSTANTS
  Confs <- MCConfs
  FixWaitErr = FALSE
  Reduce = TRUE
- MCShapes = {"img", "dup", "idx2", "docker", "empty", "schema1", "inline", "bentry"}
+ MCShapes = {"img", "empty", "schema1", "inline", "idx2", "docker"}
  MCPairs = {"tworeg", "samereg", "samerepo", "reg2dir", "dir2reg", "dir2dir"}
  MCOpts <- MCOptsDefault
  MCFeats <- MCFeatsMount
